@@ -29,7 +29,7 @@ STUBS = [
     'special floats are excluded by the property; floats are not symbolic (the engine never confirms symbolic floats)',
 ]
 OUTSIDE = ['documents beyond the enumerated shapes', 'msgpack (not installed)', 'string leaves longer than 1 character', 'multipart (C13)']
-BUDGET = {'quick': 300, 'thorough': 2400}
+BUDGET = {'quick': 300, 'thorough': 900}
 
 CTYPES = ['application/json', 'application/json; charset=utf-8', 'application/json ;v=1']
 
